@@ -228,6 +228,7 @@ REG = {
         "parts": [
             rapid("sys", "TestC06", 80, 1000, qs=12, ts=16),
             enum("sys", "TestC06Wrap", 1, 1, timeout={"quick": 300, "thorough": 900}),
+            enum("sys", "TestC06LongLived", 1, 1),
         ],
     },
     "C12": {
